@@ -6,20 +6,45 @@ DRIVER = "drv_sieve"
 DRIVER_MODULE = "Driver.Sieve"
 PROPS = "RlibModel.Props.C13"
 PROPS_SRC = "RlibModel.Props.C13Src"     # second tie: `src_*` theorems about the definitions regenerated from the source text
-PROFILES = ["release"]
-SHRINK_SEP = None
+PROFILES = ["release", "debug"]     # debug: debug_assert! / cfg(debug_assertions) code of the crate is live; a thinned-out stream (harness_args)
+SHRINK_SEP = ";"        # `itm N k ; n1 ; n2 ; …` lines are minimised by deleting arguments
 RULE = ("cases: `tab N` for EVERY limit N in [0,3000] (all three tables read through min_prime/is_prime/primes for every n <= N, "
         "FNV-64 of each table compared with the model's, every entry compared with a trial-division oracle -> view ok / first bad entry); "
         "whole tables as text for every N <= 300 and for N in {p^2-1,p^2,p^2+1}; `fact N n` for every n <= 3000 on N=3000 and on the tightest "
         "table N=n; accessor probes incl. n=N and a small out-of-range stream; sampled factorisations (prime powers, primorials, highly "
         "composite, p*q and p^2 next to the limit, smooth, random) on N=10^5 (thorough: 10^6, 10^7); random larger limits; thorough adds "
         "tab 999999, tab 10^6 (model + trial division) and big 10^7 (implementation vs an independent segmented Eratosthenes in the harness, "
-        "model hash compared too). non-trivial = distinct in-domain case with limit N >= 2")
+        "model hash compared too). "
+        "LIMITS, densely (`new N`: Sieve::new(N) alone, summary #primes / FNV of primes() / first / last / min_prime(N) / is_prime(N) compared with the model, "
+        "and every entry of all three tables compared with the harness's own Eratosthenes table): every limit up to 2^12 (thorough 2^15), then a fixed "
+        "stride of 16 (thorough 5) with a seed-dependent phase up to 2^17, in zig-zag order (largest, smallest, ...), so that a fault on any run of 16 (5) "
+        "consecutive limits below 2^17 cannot be missed; plus 2^k-1, 2^k, 2^k+1 (k <= 17, and 2^20), p^2-1, p^2, p^2+1 for every prime p <= 359, random prime limits "
+        "with their successor and the multiple of 64 below, a few limits up to 4*10^6 (thorough: 130 up to 10^7). "
+        "CONSUMPTION of factorize(n) (`itm N k ; n ; ...`: k calls of next, then EVERY provided Iterator method on what is left - collect, next by hand until None "
+        "and twice more, count, last, fold, for_each, sum, product, max, min, max_by_key, min_by_key, reduce, find, position, any, all, partition, unzip, nth(0), "
+        "nth(1), skip, step_by, by_ref().take, eq, size_hint - each under catch_unwind, each compared with the model's list semantics and with the same generic "
+        "code run on Vec::into_iter() of the trial-division factorisation): every n <= 640 for k = 0..3 on N=640 and on tight tables, samples on 10^5 and 140000, "
+        "and arguments where an i32 intermediate ONE STEP BEYOND the data overflows (q^2 and m*q^2 for primes q >= 1291, the largest power of every prime <= 229, "
+        "multiples of primes next to 46341, semiprimes next to sqrt N, values next to N) on N = 4*10^6 (thorough: 10^7 with every such q, 10^6, 11.1*10^6 for 223^3). "
+        "`live`: two sieves and three iterators alive at once, advanced in turn, returned primes fed back into the accessors of both tables. "
+        "Both build profiles: release (overflow-checks on) and debug (debug_assert!/cfg(debug_assertions) code live; a thinned-out stream). "
+        "non-trivial = distinct in-domain case with limit N >= 2")
 ASSUMPTIONS = [
     "the Lean model of rlib_sieve is hand-written; it is tied to the code by running both on the same cases",
     "values are modelled as Nat: the casts `i as i32` / `primes[j] as usize` are the identity only for N < 2^31 (named residue)",
     "a `tab` line compares 64-bit FNV hashes of the tables between model and implementation; entry-level agreement is established "
     "against the independent oracles (trial division / segmented Eratosthenes), which also pinpoint the first bad entry",
+    "`new N` (the dense limit sweep): model and implementation are compared on a summary only (number, FNV-64, first and last of primes(), "
+    "min_prime(N), is_prime(N)); the entry-by-entry check of all three tables behind its view `ok` is done by the harness against its own "
+    "first-writer-wins Eratosthenes table (an independent brute-force oracle, kept for the whole process; the sieve under test is built afresh per case); "
+    "the driver answers all `new` lines from ONE cached model table built for a limit M >= N - theorems foldUpTo_prefix, primesUpTo_prefix, "
+    "minPrime_prefix, isPrime_prefix, factorize_prefix prove that this is what `sieve N` itself shows",
+    "`itm`: the specification of a PROVIDED Iterator method is std's definition in terms of `next` - Rlib.Sieve.modesOf on the list the model's "
+    "iterator yields (theorems iterModes_eq_spec, iterModes_count, iterModes_divisor_count); the harness additionally runs the same generic "
+    "consumption code on Vec::into_iter() of its trial-division factorisation (std's own iterator as reference). size_hint is constrained only "
+    "to bracket the number of items left (the property fixes no value); a panic inside one consumption mode is printed in place of its result",
+    "the debug-profile run uses a thinned-out case stream (unoptimised code is 10-20 times slower); it is there for debug_assert!/cfg(debug_assertions) "
+    "code in the crate - overflow checks are on in both profiles",
 ]
 MANIFEST = {
     "level": "proof",
@@ -27,12 +52,21 @@ MANIFEST = {
              "is_prime(n) = decide (Nat.Prime n) for n <= N, primes() = all primes <= N in increasing order, table sizes N+1, accessors "
              "panic exactly outside the table; factorize(n) for 1 <= n <= N returns strictly increasing primes with exponents "
              "Nat.factorization n p, product n, nothing for 1, never runs out of fuel for fuel > log2 n. The hand-written model is tied "
-             "to rlib_sieve by a differential correspondence run on every check (every limit 0..3000, 10^6, 10^7)."),
+             "to rlib_sieve by a differential correspondence run on every check (every table entry for every limit 0..3000 and at 10^6, 10^7; construction "
+             "of every limit up to 2^12 and of every 16th up to 2^17 with all tables checked against an Eratosthenes oracle; every provided Iterator "
+             "method of factorize(n), also after partial consumption, incl. arguments up to 4*10^6 / 10^7 where a neighbouring i32 product overflows; two "
+             "sieves alive at once; release and debug builds). One model table answers for every smaller limit (prefix theorems); count() is the number of "
+             "distinct prime divisors and the product of (e+1) the number of divisors (theorems)."),
     "note": ("Trusted: Lean kernel, axioms propext/Classical.choice/Quot.sound, Mathlib's Nat.Prime/minFac/factorization, the hand-written model "
              "(checked against the code on the generated cases only), harness and driver plumbing. Residue: i32 casts (N < 2^31)."),
     "technique": "Lean 4 proof (loop invariant of the linear sieve) of a hand-written model + differential correspondence check against the Rust crate",
     "design_ref": "DESIGN.md §6 C13",
 }
+
+
+def harness_args(params, profile):
+    """the generator thins its stream out for the unoptimised build (`--profile debug`); `run` ignores the argument"""
+    return ["--profile", profile]
 
 
 def nontrivial(case, rec):
